@@ -209,11 +209,20 @@ def apply_op(ctx, world, op, hist, case):
     world.peer.take()
     if kind == 'export':
         objkind = op[2]
-        obj = (ObjAB if objkind == 'AB' else ObjA)(path)
-        world.conn.exportObject(obj)
+        try:
+            obj = (ObjAB if objkind == 'AB' else ObjA)(path)
+            world.conn.exportObject(obj)
+        except Exception as e:
+            ctx.report('export-raised', 'constructing / exporting a %s object at %s raised %r' % (objkind, path, e),
+                       {'history': hist, 'op': list(op)}, case)
+            return False
         world.exported[path] = objkind
     else:
-        world.conn.unexportObject(path)
+        try:
+            world.conn.unexportObject(path)
+        except Exception as e:
+            ctx.report('unexport-raised', 'unexporting %s raised %r' % (path, e), {'history': hist, 'op': list(op)}, case)
+            return False
         del world.exported[path]
     sigs = [m for m in world.peer.take() if m.mtype == RM.SIGNAL]
     ctx.count('evaluations')
